@@ -30,8 +30,8 @@ PROPS = {
     },
     "C03": {
         "coq": "Properties/C03.v",
-        "coq_extra": ["Properties/C03M.v", "Properties/RoleManagerGen.v", "Properties/C03src.v"],
-        "pinchecks": ["PinChecks/PcRoleGraph.v", "PinChecks/PcRoleManagerGen.v", "PinChecks/PcBody_rmcache.v"] + ["PinChecks/PcBody_frolemanager.v"],
+        "coq_extra": ["Properties/C03M.v", "Properties/RoleManagerGen.v", "Properties/C03src.v", "Properties/RmCacheGen.v", "Properties/RmCacheFindings.v"],
+        "pinchecks": ["PinChecks/PcRoleGraph.v", "PinChecks/PcRoleManagerGen.v", "PinChecks/PcRmCacheGen.v"] + ["PinChecks/PcBody_frolemanager.v"],
         "gen": "c03",
         "level_text": "Coq theorems over Model/RoleGraph.v, for every history of add_link/delete_link/clear and every query: the per-domain "
                       "edge set refines the set-semantics spec (c03_links_refine), has_link is sound at every depth (c03_sound) and complete "
@@ -58,7 +58,7 @@ PROPS = {
         "coq": "Properties/C01.v",
         "coq_extra": ["Properties/C16e.v", "Properties/C01src.v", "Properties/ExprVal.v"],
         "pinchecks": ["PinChecks/PcEnforcer2Gen.v", "PinChecks/PcEnforceGen.v", "PinChecks/PcEnforcerGen.v", "PinChecks/PcLiterals.v", "PinChecks/PcModel2Gen.v", "PinChecks/PcEffector.v", "PinChecks/PcEffectorGen.v",
-                      "PinChecks/PcIniGen.v", "PinChecks/PcRegexGen.v", "Gen/RegexExamples.v", "PinChecks/PcRegexFmGen.v", "PinChecks/PcStrFnGen.v"] + ["PinChecks/PcStoreGen.v", "PinChecks/PcLinksGen.v", "PinChecks/PcRoleGraph.v", "PinChecks/PcRoleManagerGen.v", "PinChecks/PcBody_rmcache.v"],
+                      "PinChecks/PcIniGen.v", "PinChecks/PcRegexGen.v", "Gen/RegexExamples.v", "PinChecks/PcRegexFmGen.v", "PinChecks/PcStrFnGen.v"] + ["PinChecks/PcStoreGen.v", "PinChecks/PcLinksGen.v", "PinChecks/PcRoleGraph.v", "PinChecks/PcRoleManagerGen.v", "PinChecks/PcRmCacheGen.v"],
         "gen": "c01",
         "level_text": "Coq theorem c01_enforce_is_perm: for EVERY model store, matcher AST, function table, request (any arity/types), "
                       "effect rule and flag the enforcement loop of the model equals the PERM reference (per-rule outcomes in stored order, "
@@ -96,7 +96,7 @@ PROPS = {
 }
 
 
-ENGINE_PINS = ["Gen/RhaiExamples.v", "PinChecks/PcMiscGen.v", "PinChecks/PcEnforcer2Gen.v", "PinChecks/PcEnforceGen.v", "PinChecks/PcEnforcerGen.v", "PinChecks/PcModel2Gen.v", "PinChecks/PcStoreGen.v", "PinChecks/PcLinksGen.v", "PinChecks/PcInternalGen.v", "PinChecks/PcFsaveGen.v", "PinChecks/PcAdaptersGen.v", "PinChecks/PcBody_fmgmtapi.v", "PinChecks/PcApiGen.v", "PinChecks/PcQueryGen.v", "PinChecks/PcBody_frbacapi.v", "PinChecks/PcRoleGraph.v", "PinChecks/PcRoleManagerGen.v", "PinChecks/PcBody_rmcache.v", "PinChecks/PcLiterals.v"]
+ENGINE_PINS = ["Gen/RhaiExamples.v", "PinChecks/PcMiscGen.v", "PinChecks/PcEnforcer2Gen.v", "PinChecks/PcEnforceGen.v", "PinChecks/PcEnforcerGen.v", "PinChecks/PcModel2Gen.v", "PinChecks/PcStoreGen.v", "PinChecks/PcLinksGen.v", "PinChecks/PcInternalGen.v", "PinChecks/PcFsaveGen.v", "PinChecks/PcAdaptersGen.v", "PinChecks/PcBody_fmgmtapi.v", "PinChecks/PcApiGen.v", "PinChecks/PcQueryGen.v", "PinChecks/PcBody_frbacapi.v", "PinChecks/PcRoleGraph.v", "PinChecks/PcRoleManagerGen.v", "PinChecks/PcRmCacheGen.v", "PinChecks/PcLiterals.v"]
 ENGINE_NOTE = ("trusted: Coq kernel, extraction, harness; modelled not verified: hashlink LinkedHashSet/LinkedHashMap order (insert moves an existing entry "
                "to the back), petgraph adjacency order, rhai on the matcher fragment; adapters are modelled at the level of parsed lines (the CSV text level is "
                "C16/C09-text); every modelled function body is pinned by hash to the source it was aligned with")
@@ -106,7 +106,7 @@ PROPS.update({
         "coq": "Properties/C06.v",
         "coq_extra": ["Properties/C06src.v"],
         "pinchecks": ["PinChecks/PcEnforcer2Gen.v", "PinChecks/PcEnforceGen.v", "PinChecks/PcEnforcerGen.v", "PinChecks/PcFmapGen.v", "Gen/RegexSyntaxExamples.v", "PinChecks/PcStrFnGen.v", "PinChecks/PcLiterals.v", "PinChecks/PcEffector.v", "PinChecks/PcEffectorGen.v", "PinChecks/PcModel2Gen.v",
-                      "PinChecks/PcRoleGraph.v", "PinChecks/PcRoleManagerGen.v", "PinChecks/PcBody_rmcache.v"] + ["PinChecks/PcBody_ferror.v"],
+                      "PinChecks/PcRoleGraph.v", "PinChecks/PcRoleManagerGen.v", "PinChecks/PcRmCacheGen.v"] + ["PinChecks/PcBody_ferror.v"],
         "gen": "c06",
         "partial": "never-hang / never-panic of the regex crate and of rhai is NOT a theorem: it is watchdog + catch_unwind evidence from the differential run; "
                    "the theorems cover the model's enforcement loop and built-ins",
@@ -329,7 +329,7 @@ PROPS.update({
     "C20": {
         "coq": "Properties/C20.v",
         "coq_extra": ["Properties/LocksGen.v"],
-        "pinchecks": ["PinChecks/PcLocks.v", "PinChecks/PcLocksGen.v", "PinChecks/PcFmapGen.v", "Gen/RegexSyntaxExamples.v", "PinChecks/PcStrFnGen.v", "PinChecks/PcRegexFmGen.v", "PinChecks/PcModel2Gen.v", "PinChecks/PcBody_frbacapi.v", "PinChecks/PcEnforcer2Gen.v", "PinChecks/PcEnforceGen.v", "PinChecks/PcEnforcerGen.v", "PinChecks/PcBody_fcachedenforcer.v", "PinChecks/PcCachedGen.v"] + ["PinChecks/PcCached.v", "PinChecks/PcRoleGraph.v", "PinChecks/PcRoleManagerGen.v", "PinChecks/PcBody_rmcache.v"],
+        "pinchecks": ["PinChecks/PcLocks.v", "PinChecks/PcLocksGen.v", "PinChecks/PcFmapGen.v", "Gen/RegexSyntaxExamples.v", "PinChecks/PcStrFnGen.v", "PinChecks/PcRegexFmGen.v", "PinChecks/PcModel2Gen.v", "PinChecks/PcBody_frbacapi.v", "PinChecks/PcEnforcer2Gen.v", "PinChecks/PcEnforceGen.v", "PinChecks/PcEnforcerGen.v", "PinChecks/PcBody_fcachedenforcer.v", "PinChecks/PcCachedGen.v"] + ["PinChecks/PcCached.v", "PinChecks/PcRoleGraph.v", "PinChecks/PcRoleManagerGen.v", "PinChecks/PcRmCacheGen.v"],
         "gen": "c20",
         "partial": "PARTIAL by nature: the theorems are about an abstract small-step semantics of two writer-preferring, non-re-entrant read-write locks and the "
                    "thread programs the code follows; that rustc / parking_lot / mini-moka / rhai implement those semantics (memory model, fairness, Send/Sync "
